@@ -455,11 +455,29 @@ func genParserRuns(seed int64, n int, tier string) []Script {
 		op := pumpOp(r, data, B, "mixed")
 		op["pntl"] = 0
 		op["pnil"] = 0
+		ops := []map[string]any{op}
+		if r.Intn(3) == 0 {
+			// a used parser: warm up with a short run of the same byte, then
+			// Reset (nil, or with the first part of the run)
+			warm := make([]byte, 3+r.Intn(60))
+			for j := range warm {
+				warm[j] = c
+			}
+			wop := pumpOp(r, warm, B, "mixed")
+			wop["pnil"], wop["pprobe"] = 0, 0
+			reset := map[string]any{"op": "reset"}
+			if r.Intn(2) == 0 && len(data) > 0 {
+				k := 1 + r.Intn(minI(len(data), B))
+				reset = map[string]any{"op": "reset", "data": B2(data[:k]), "cap": pickInt(r, 0, 7, 20)}
+				op["data"] = B2(data[k:])
+			}
+			ops = []map[string]any{wop, reset, op}
+		}
 		out = append(out, Script{
 			Tid:  "parser-runs-" + itoa(seed) + "-" + itoa(int64(i)),
 			Comp: "parser",
 			Cfg:  cfg,
-			Ops:  []map[string]any{op},
+			Ops:  ops,
 			Tags: []string{"go", kind, "runclause"},
 		})
 	}
